@@ -29,7 +29,7 @@ PROFILE = S.GENERAL.but(p_block=6, p_coroutine=50, p_raise=22, p_critical=30, p_
 
 
 def budget(tier):
-    return dict(examples=5000 if tier == 'quick' else 250000)
+    return dict(examples=5000 if tier == 'quick' else 80000)
 
 
 def strategy(tier):
